@@ -108,7 +108,12 @@ class W:
             b.tasks_by_reference = flavour == "by-reference"
             b.real_thread_tasks = flavour == "python-can-thread"    # python-can's ThreadBasedCyclicSendTask itself (Mode T)
         self.nid = 1 + ctx.choice(127, "node")
-        self.local = canopen.LocalNode(self.nid, build_slave_od())
+        sod = build_slave_od()
+        # the heartbeat time comes from the dictionary file: as a DCF ParameterValue (beside the default 0), or not at all
+        pv = (0, 0, 20, 500)[ctx.choice(4, "hb-parameter-value")]
+        if pv:
+            sod[0x1017].value = pv
+        self.local = canopen.LocalNode(self.nid, sod)
         self.snet.add_node(self.local)
         rod = canopen.ObjectDictionary()
         rod.add_object(world.var("Producer heartbeat time", 0x1017, 0, odm.UNSIGNED16, "rw"))
@@ -149,7 +154,7 @@ class W:
         self.models["guard2"].can_id = 0x700 + self.nid
         self.models["guard2"].remote = True
         self.models["rpdo"].can_id = 0x200 + self.nid
-        self.hb_time = 0            # stored 0x1017 value
+        self.hb_time = pv           # the 0x1017 value in force (DCF parameter value until something is written)
         self.state = 0              # slave NMT state number
         self.disconnected = False
         self.mark = self.ch.n
